@@ -259,6 +259,11 @@ def check_property(pid, tier, seed):
             if d is not None and d.get('broken'):
                 dyn_contracts.append(dict(id=c['id'], status='not-run', detail=d.get('detail')))
                 continue
+        elif c.get('kind') == 'cli-numeric':
+            d, err = witness.cli_numeric_ops(REPO, BUILD, log)
+            if d is not None and d.get('broken'):
+                dyn_contracts.append(dict(id=c['id'], status='not-run', detail=d.get('detail')))
+                continue
         elif c.get('kind') == 'cli-literals':
             d, err = witness.cli_literals(REPO, BUILD, log)
             if d is not None and d.get('broken'):
@@ -471,6 +476,13 @@ def replay_file(pid, path):
         return 0
     if w['replay_cmd'][0] == '@cli-signature':
         dd, err = witness.cli_signature_mutations(REPO, BUILD, log, 'thorough', only=w['replay_cmd'][1])
+        print(json.dumps(dd))
+        if dd and dd.get('found'):
+            print(f'VIOLATION property={pid} replay={path} obligation={d.get("obligation")}')
+            return 1
+        return 0
+    if w['replay_cmd'][0] == '@cli-numeric':
+        dd, err = witness.cli_numeric_ops(REPO, BUILD, log, only=w['replay_cmd'][1])
         print(json.dumps(dd))
         if dd and dd.get('found'):
             print(f'VIOLATION property={pid} replay={path} obligation={d.get("obligation")}')
